@@ -1693,11 +1693,8 @@ breaker('C05', 'bs-begin-reads-metadata-first', 'C05.R1', BSPY,
 
             user = transaction.user
             desc = transaction.description
-            ext = transaction.extension_bytes
 ''', '''            user = transaction.user
             desc = transaction.description
-            ext = transaction.extension_bytes
-
             self._transaction = transaction
             self._clear_temp()
 ''')
